@@ -217,6 +217,7 @@ pub struct AWorld {
     dirs: Vec<Option<std::path::PathBuf>>,
     roots: Vec<Option<AsyncVfsPath>>,
     rh: Vec<Option<Box<dyn SeekAndRead + Send + Unpin>>>,
+    wh: Vec<Option<Box<dyn futures::AsyncWrite + Send + Unpin>>>,
     pends: Arc<Pends>,
     counter: u64,
 }
@@ -230,13 +231,14 @@ fn set_at<T>(v: &mut Vec<Option<T>>, i: usize, x: Option<T>) {
 
 impl AWorld {
     pub fn new(scratch: &str, seed: u64, max_pending: u32) -> Self {
-        AWorld { scratch: scratch.into(), leaves: vec![], dirs: vec![], roots: vec![], rh: vec![], pends: Arc::new(Pends { state: AtomicU64::new(seed), max: max_pending, injected: AtomicU64::new(0) }), counter: 0 }
+        AWorld { scratch: scratch.into(), leaves: vec![], dirs: vec![], roots: vec![], rh: vec![], wh: vec![], pends: Arc::new(Pends { state: AtomicU64::new(seed), max: max_pending, injected: AtomicU64::new(0) }), counter: 0 }
     }
     pub fn injected(&self) -> u64 {
         self.pends.injected.load(Ordering::SeqCst)
     }
     pub fn reset(&mut self) {
         self.rh.clear();
+        self.wh.clear();
         self.roots.clear();
         self.leaves.clear();
         for d in self.dirs.drain(..).flatten() {
@@ -473,6 +475,40 @@ impl AWorld {
                 }
                 Err(e) => enc_res::<()>(Ok(Err(e)), |_| String::new()),
             },
+            ["hcreate", hid, fsid, p] => match self.on(us(fsid), &dec_str(p), |q| async move { q.create_file().await }).await {
+                Ok(h) => {
+                    set_at(&mut self.wh, us(hid), Some(h));
+                    "ok".into()
+                }
+                Err(e) => enc_res::<()>(Ok(Err(e)), |_| String::new()),
+            },
+            ["happend", hid, fsid, p] => match self.on(us(fsid), &dec_str(p), |q| async move { q.append_file().await }).await {
+                Ok(h) => {
+                    set_at(&mut self.wh, us(hid), Some(h));
+                    "ok".into()
+                }
+                Err(e) => enc_res::<()>(Ok(Err(e)), |_| String::new()),
+            },
+            ["hwrite", hid, b] => {
+                let b = unhex(&b[1..]);
+                let h = self.wh[us(hid)].as_mut().expect("no such write handle");
+                match h.write_all(&b).await {
+                    Ok(()) => format!("ok {}", b.len()),
+                    Err(_) => "err io -".into(),
+                }
+            }
+            ["hflush", hid] => {
+                let h = self.wh[us(hid)].as_mut().expect("no such write handle");
+                match h.flush().await {
+                    Ok(()) => "ok".into(),
+                    Err(_) => "err io -".into(),
+                }
+            }
+            ["hdrop", hid] if self.wh.get(us(hid)).map(|s| s.is_some()).unwrap_or(false) => {
+                let h = self.wh[us(hid)].take();
+                drop(h);
+                "ok".into()
+            }
             ["hread", hid, n] => {
                 let h = self.rh[us(hid)].as_mut().expect("no such handle");
                 // a read may legally return fewer bytes than asked (async-std's File does after a
@@ -544,7 +580,7 @@ pub fn run(o: &Opts) -> Report {
     let rt = tokio::runtime::Builder::new_current_thread().build().unwrap();
     let configs = ["mem", "phys", "alt(mem)", "alt(phys)", "ovl(mem,mem)", "ovl(mem,mem,mem)", "ovl(phys,mem)", "alt(ovl(mem,mem))", "ovl(alt,alt)", "ghost(mem)", "ghost(phys)", "alt(ghost(mem))"];
     let drivers = ["tokio", "async-std", "futures"];
-    let (n_runs, n_ops) = if o.thorough() { (24, 50) } else { (4, 25) };
+    let (n_runs, n_ops) = if o.thorough() { (27, 50) } else { (9, 36) };
     let ts = TreeSpec { prop: "C15".into(), configs: vec![], corr_level: 1, spec_results: false, spec_snapshots: false, wrong_type_calls: true, root_calls: false, composite_ops: true, time_ops: false, preds: vec![] };
     let uni: String = universe().iter().map(|p| enc_str(p)).collect::<Vec<_>>().join(" ");
     let mut sworld = RWorld::new(&o.scratch);
@@ -607,11 +643,40 @@ pub fn run(o: &Opts) -> Report {
             }
             let mut snap = parse_snap(&sworld.exec(&format!("snap {} {}", cfg.target, uni)));
             let mut ops_desc = vec![];
+            let mut whandle: Option<String> = None;
             for _ in 0..n_ops {
                 if dead {
                     break;
                 }
                 let mut op: Op = gen_op(&mut rng, &ts, &snap, &cfg);
+                // a write handle kept open across other calls (memory-backed configurations: a std File
+                // writes through while an async-std File buffers, so open physical handles are not
+                // comparable in between): opened on a universe path, written and flushed now and then,
+                // with other calls aimed at its path in between (a second session on the same path,
+                // removal, re-creation), dropped at the latest at the end of the history
+                if !phys && !cfg_kind.contains("ghost") {
+                    let last = ops_desc.len() + 1 == n_ops;
+                    if whandle.is_some() && (last || rng.chance(1, 6)) {
+                        whandle = None;
+                        op = Op { name: "hdrop", path: String::new(), bytes: None, dest: None, time: None };
+                    } else if let Some(hp) = whandle.clone() {
+                        match rng.below(8) {
+                            0 | 1 => op = Op { name: "hwrite", path: String::new(), bytes: Some(crate::tree_stream::random_bytes(&mut rng)), dest: None, time: None },
+                            2 => op = Op { name: "hflush", path: String::new(), bytes: None, dest: None, time: None },
+                            3 => op = Op { name: "write", path: hp, bytes: Some(crate::tree_stream::random_bytes(&mut rng)), dest: None, time: None },
+                            4 => op = Op { name: if rng.chance(1, 2) { "remove_file" } else { "append" }, path: hp, bytes: Some(crate::tree_stream::random_bytes(&mut rng)), dest: None, time: None },
+                            _ => {}
+                        }
+                        if op.name == "remove_file" {
+                            op.bytes = None;
+                        }
+                    } else if !last && rng.chance(1, 7) {
+                        let files: Vec<&str> = universe().iter().cloned().filter(|p| !p.is_empty()).collect();
+                        let p = rng.pick(&files[..]).to_string();
+                        whandle = Some(p.clone());
+                        op = Op { name: if rng.chance(1, 2) { "hcreate" } else { "happend" }, path: p, bytes: None, dest: None, time: None };
+                    }
+                }
                 if op.name == "write" && rng.chance(1, 2) {
                     // the same session with the file observed while the handle is open (before and
                     // after the write, after the flush, after the drop)
@@ -635,6 +700,13 @@ pub fn run(o: &Opts) -> Report {
                         break;
                     }
                     Some((s, a)) => {
+                        if matches!(op.name, "hcreate" | "happend") && !(s == "ok" && a == "ok") {
+                            // no handle was obtained (the comparison below still judges the two answers)
+                            whandle = None;
+                            if (s == "ok") != (a == "ok") {
+                                dead = true;
+                            }
+                        }
                         let same = if op.name == "walk" {
                             let n = |x: &str| {
                                 let mut v: Vec<String> = project(x, 1).split(' ').map(|t| t.to_string()).collect();
